@@ -33,6 +33,13 @@ import (
 
 func htons(v uint16) uint16 { return v<<8 | v>>8 }
 
+// the port the tcp / udp commands of entry 3 probe
+const wirePort = 80
+
+// IPLevelCommands is the whole family that shares ipScanCmdOpts.parseOptions: every one of them has
+// its own RunE and its own way of handing vpnMode to its packet filler.
+var IPLevelCommands = []string{"icmp", "udp", "tcp", "tcp syn", "tcp --flags fin,ack", "tcp fin", "tcp null", "tcp xmas"}
+
 type wireFrame struct {
 	ifindex int    // interface that received the frame (veth) or tun it was read from
 	tun     bool   // read from a tun device: raw bytes as written by the sender
@@ -89,8 +96,13 @@ func parseIPv4(p []byte, f *wireFrame) bool {
 	}
 	f.srcIP, f.dstIP = append([]byte(nil), p[12:16]...), append([]byte(nil), p[16:20]...)
 	ihl := int(p[0]&15) * 4
-	if p[9] == 1 && len(p) >= ihl+8 && p[ihl] == 8 {
+	switch {
+	case p[9] == 1 && len(p) >= ihl+8 && p[ihl] == 8:
 		f.kind = "icmp"
+	case p[9] == 6 && len(p) >= ihl+20 && int(p[ihl+2])<<8|int(p[ihl+3]) == wirePort:
+		f.kind = "tcp"
+	case p[9] == 17 && len(p) >= ihl+8 && int(p[ihl+2])<<8|int(p[ihl+3]) == wirePort:
+		f.kind = "udp"
 	}
 	return true
 }
@@ -273,12 +285,22 @@ func runWire(o CaseOut, argv []string, ifs []IfaceOut, cacheFile string) CaseOut
 	// whether anything can be observed at all on that interface; it is NOT what gets compared.
 	var pre command.VerifC17Result
 	var full []string
+	want := "arp"
 	if o.Entry == 2 {
 		pre = command.VerifC17ScanRange(append(append([]string{}, argv...), o.Target))
 		full = append(append([]string{"arp"}, argv...), "--exit-delay", "60ms", o.Target)
 	} else {
 		pre = command.VerifC17IPScan(append(append([]string{}, argv...), "--arp-cache", cacheFile, o.Target))
-		full = append(append([]string{"icmp"}, argv...), "--arp-cache", cacheFile, "--exit-delay", "60ms", o.Target)
+		words := strings.Fields(o.Cmd)
+		if len(words) == 0 {
+			words = []string{"icmp"}
+		}
+		want = words[0]
+		full = append(append([]string{}, words...), argv...)
+		if want != "icmp" {
+			full = append(full, "-p", fmt.Sprint(wirePort))
+		}
+		full = append(full, "--arp-cache", cacheFile, "--exit-delay", "60ms", o.Target)
 	}
 	willSend := pre.Err == nil && (o.Entry == 3 || pre.SrcMAC != nil)
 	if willSend {
@@ -318,10 +340,6 @@ func runWire(o CaseOut, argv []string, ifs []IfaceOut, cacheFile string) CaseOut
 		return o
 	}
 	o.Err, o.ErrText = res.Err, res.Text
-	want := "arp"
-	if o.Entry == 3 {
-		want = "icmp"
-	}
 	w := &WireOut{}
 	var via []string
 	rawIP := false
